@@ -182,7 +182,15 @@ def mutants(master, tier, only=None):
     return 0 if failures == 0 else 1
 
 
+def monitors():
+    env = dict(os.environ, OMP_NUM_THREADS="1", OPENBLAS_NUM_THREADS="1", PYTHONPATH=VERIF, PYTHONDONTWRITEBYTECODE="1")
+    r = subprocess.run([PY, "-m", "sim.selftest_monitors", repo_path()], env=env, cwd=VERIF)
+    return r.returncode
+
+
 def run(name, master, tier):
+    if name == "monitors":
+        return monitors()
     if name == "determinism":
         return determinism(master, tier)
     if name == "digests":
